@@ -591,6 +591,16 @@ def gen_invocation(rng, world_state):
             else:
                 env["ref"] = ref_text
             spec["via_ref"] = which
+        elif r3 < 0.37:
+            # the documented usages 2.1, 2.2, 2.4: one of the two is the
+            # current time ('now', or 'ref' while no reference is given)
+            which = rng.randrange(2)
+            items[which] = rng.choice(["now", "now", "ref"])
+            spec["via_now"] = which
+            spec["points"][which] = {"notation": None, "written": {},
+                                     "text": items[which]}
+            if rng.random() < 0.3:
+                step["inop"] = [[rng.randint(1, 8), gen_action(rng, 3)]]
         step["spec"] = spec
         step["argv"] = assemble(rng, items, groups)
         return step
@@ -1298,7 +1308,7 @@ class Sim(object):
                              out, step_no)
         elif kind == "diff":
             self.check_diff(step, spec, argv, mode, before, status, out,
-                            step_no)
+                            step_no, served)
         elif kind == "total":
             self.check_total(spec, argv, status, out, step_no)
         elif kind == "rec":
@@ -1376,8 +1386,9 @@ class Sim(object):
 
     # ---- K2
     def check_diff(self, step, spec, argv, mode, before, status, out,
-                   step_no):
+                   step_no, served=()):
         pts = spec["points"]
+        now_at = spec.get("via_now")
         utc = spec.get("utc")
         text = out.strip()
         refused = status.startswith("exitmsg:") or status.startswith("exit:")
@@ -1386,7 +1397,8 @@ class Sim(object):
             neg_item = True
         else:
             neg_item = False
-        valid = all(cm.written_valid(p["written"], mode) for p in pts)
+        valid = all(cm.written_valid(p["written"], mode)
+                    for i, p in enumerate(pts) if i != now_at)
         if not valid:
             self.count("probe.refusal_expected")
             if not refused:
@@ -1399,6 +1411,12 @@ class Sim(object):
                          stdin=step.get("stdin"), got=[status[:200], out],
                          want="a duration", neg_year_item=neg_item)
             return
+        if now_at is not None:
+            self.count("probe.diff_with_now")
+            if len(served) != 1:
+                # (not exactly one clock read: nothing to compare with)
+                self.count("skipped.diff_now_reads_%d" % len(served))
+                return
         exact = all(o["us"] is not None
                     for o in spec["offsets1"] + spec["offsets2"])
         durs = None
@@ -1411,7 +1429,8 @@ class Sim(object):
                                        "us": o["us"]} for o in offs]
                     for offs in (spec["offsets1"], spec["offsets2"])]
             if any(d is None for ds in durs for d in ds) or any(
-                    p["written"].get("H") == 24 for p in pts):
+                    p["written"].get("H") == 24
+                    for i, p in enumerate(pts) if i != now_at):
                 durs = None
             else:
                 exact = True
@@ -1421,13 +1440,19 @@ class Sim(object):
             for off_l in ([0] if utc else loc):
                 ts = []
                 for i, p in enumerate(pts):
-                    off = p["written"]["off"]
-                    eff = off_l if off is None else off
-                    t_us = cm.written_instant_us(p["written"], mode, eff)
+                    if i == now_at:
+                        # the current time: what the clock served, held in
+                        # the local zone (UTC with --utc), calendar form
+                        off, eff, rep = None, off_l, "cal"
+                        t_us = int(round(served[0] * 10 ** 6))
+                    else:
+                        off = p["written"]["off"]
+                        eff = off_l if off is None else off
+                        rep = p["written"]["rep"]
+                        t_us = cm.written_instant_us(p["written"], mode, eff)
                     if durs is not None:
                         t_us = cm.shift_instant(
-                            mode, p["written"]["rep"], t_us,
-                            0 if utc else eff, durs[i])
+                            mode, rep, t_us, 0 if utc else eff, durs[i])
                     else:
                         t_us += sum(o["us"] for o in (
                             spec["offsets1"], spec["offsets2"])[i])
@@ -1439,8 +1464,10 @@ class Sim(object):
                     got = float(text)
                 except ValueError:
                     got = None
+                # (the current time is a double: ~2.4e-7 s apart near 2e9 s)
+                slack = 3e-6 / unit if now_at is not None else 0.0
                 ok = got is not None and any(
-                    abs(got - d / 1e6 / unit) <= 1e-9 * max(
+                    abs(got - d / 1e6 / unit) <= slack + 1e-9 * max(
                         1.0, abs(d / 1e6 / unit)) for d in wants)
                 if not ok:
                     self.violate("cli_model", "diff", step_no, argv=argv,
@@ -1483,7 +1510,8 @@ class Sim(object):
                                  want_us_any_of=sorted(wants))
         # the property's own words: first + d == second, with the library
         # (adding walks year by year: keep to gaps below ~3000 years)
-        if spec.get("total") or spec.get("dpf") or self.facade.fired:
+        if spec.get("total") or spec.get("dpf") or self.facade.fired or (
+                now_at is not None):
             return
         printed = cm.parse_printed_duration(text)
         if printed is None or abs(printed) > 3000 * 366 * 86400 * 10 ** 6:
